@@ -84,7 +84,9 @@ def cmd_replay(prop, path, quiet):
             return 1
         print('replay: the run completed without a fault signal')
         return 0
-    r = ad.execute_full(plan)
+    # executed the way every run of a batch is: in a forked child of this (warmed-up, otherwise pristine) process,
+    # inside a fresh private run directory
+    r = ad.execute_isolated(plan)
     want = doc.get('finding_key')
     vs = r.get('violations') or []
     if not vs:
